@@ -368,12 +368,26 @@ fn point_ops(cx: &mut Ctx, op: &str, args: &[&str]) -> Option<String> {
         ("cmp", ["pt", "pt", a, b]) => {
             let a = num(a)?;
             let b = num(b)?;
-            Some(match guard(|| a.partial_cmp(&b)) {
+            let res = guard(|| a.partial_cmp(&b));
+            cx.rec.count(&format!("cmp:Point:{}", if res.is_some() { "ok" } else { "panic" }));
+            if cx.mode == Mode::C03 {
+                // comparable exactly when equal, and then `Equal`
+                cx.check(res.is_some() == (a.val == b.val), "c03-point-cmp-eq-only", "Point");
+                cx.check(res.is_none() || res == Some(Some(Ordering::Equal)), "c03-point-cmp-equal", "Point");
+            }
+            Some(match res {
                 Some(c) => show_cmp(c).into(),
                 None => "panic".into(),
             })
         }
-        ("eq", ["pt", "pt", a, b]) => Some((num(a)? == num(b)?).to_string()),
+        ("eq", ["pt", "pt", a, b]) => {
+            let (a, b) = (num(a)?, num(b)?);
+            let e = a == b;
+            if cx.mode == Mode::C03 {
+                cx.check(e == (a.val == b.val), "c03-point-eq", "Point");
+            }
+            Some(e.to_string())
+        }
         ("isbot", ["pt", a]) => Some(num(a)?.is_bot().to_string()),
         ("istop", ["pt", a]) => Some(num(a)?.is_top().to_string()),
         ("default", ["pt"]) => Some(Pt::default().val.to_string()),
@@ -848,6 +862,23 @@ fn main() {
             let r = if rng.chance(1, 2) { "h" } else { "b" };
             run_case(&reg, &mut rec, mode, no, "ty=uf rnd", &[format!("ufatomize {r} {}", show(&sq))]);
         }
+    }
+    // Point<u32, ()>: all pairs over {0,1,2} (merge / partial_cmp panic unless the values are equal)
+    if mode != Mode::C06 {
+        let mut ls = vec![];
+        for a in 0..3 {
+            for b in 0..3 {
+                ls.push(format!("merge pt pt {a} {b}"));
+                ls.push(format!("cmp pt pt {a} {b}"));
+                ls.push(format!("eq pt pt {a} {b}"));
+            }
+            ls.push(format!("isbot pt {a}"));
+            ls.push(format!("istop pt {a}"));
+            ls.push(format!("from pt pt {a}"));
+        }
+        ls.push("default pt".to_string());
+        no += 1;
+        run_case(&reg, &mut rec, mode, no, "ty=pt pool", &ls);
     }
     // part 2: seeded random cases, cycling through all types and pairs
     let nt = reg.types.len() as u64;
